@@ -37,7 +37,7 @@ SUB = dict(  # the productive corner: views, .shape=, in-place
 WORLDS["x4sub"] = (WORLDS["x4"][0], SUB)
 
 BOUNDS = {
-    "quick": [("x4", 3), ("x23", 3)],
+    "quick": [("x4", 4), ("x23", 3)],
     "thorough": [("x4", 4), ("x23", 4), ("x4c", 3), ("x23c", 3), ("x4sub", 5)],
 }
 
@@ -147,3 +147,10 @@ def m_shape_on_view_then_write(v):
 
 
 MATCHERS = {"shape_on_view_then_write": m_shape_on_view_then_write}
+
+
+def presig(v):
+    f = v.get("failure") or ()
+    st = f[1] if len(f) > 1 else ()
+    ab = (st[0],) + tuple(x for x in st[1:] if isinstance(x, str) and not (x[:1] in "tvxy" and (x[1:].isdigit() or len(x) == 1))) if st else ()
+    return base.stable_hash((f[2] if len(f) > 2 else None, ab))
